@@ -372,6 +372,7 @@ func (w *World) recordState() {
 // onStep runs in the scheduler goroutine after every step.
 func (w *World) onStep(ran *simcore.Task) {
 	w.pollWatches(ran)
+	w.checkIndependence(ran)
 	if w.S.Steps()%4 == 0 {
 		w.recordState()
 	}
@@ -406,4 +407,52 @@ func (m *simMetrics) ObjectCount(tableName string, n int)                       
 func (m *simMetrics) DeleteTrackerCount(tableName string, n int)                         { m.trackers[tableName] = n }
 func (m *simMetrics) Revision(tableName string, revision statedb.Revision) {
 	m.revision[tableName] = revision
+}
+
+// checkIndependence: a blocked task waits only for a transaction that shares a
+// table with its own request (or for the short root section, whose holder never
+// waits itself); readers never park at a synchronisation point (C10).
+func (w *World) checkIndependence(ran *simcore.Task) {
+	if tx := tctx(ran); tx != nil && (tx.role == "reader" || tx.role == "watcher" || tx.role == "prober") {
+		if ran.State() == simcore.StParked && !strings.HasPrefix(ran.Point(), "h:") {
+			w.violate("C10", "reader-waits", "%s, which only reads, is parked at synchronisation point %s", ran.Name, ran.Point())
+			return
+		}
+	}
+	for _, b := range w.S.Tasks() {
+		if b.State() != simcore.StParked {
+			continue
+		}
+		l := b.WaitsFor()
+		if l == nil || l.Owner == nil {
+			continue
+		}
+		o := l.Owner
+		rootLock := b.Point() == "commit.rootLock" || b.Point() == "register.lock"
+		if rootLock {
+			if ol := o.WaitsFor(); o.State() == simcore.StParked && ol != nil && ol.Owner != nil {
+				w.violate("C10", "root-holder-waits", "%s holds the root lock and waits for %s held by %s while %s waits for the root lock", o.Name, ol.Name, ol.Owner.Name, b.Name)
+				return
+			}
+			w.probe("waited-for-root-section")
+			continue
+		}
+		bt, ot := tctx(b), tctx(o)
+		if bt == nil || ot == nil || bt.holding == nil {
+			continue
+		}
+		shared := false
+		for _, x := range bt.holding {
+			for _, y := range ot.holding {
+				if x == y {
+					shared = true
+				}
+			}
+		}
+		if !shared {
+			w.violate("C10", "blocked-by-unrelated-txn", "%s requested tables %v and is blocked on %s held by %s whose transaction holds tables %v: no table in common", b.Name, bt.holding, l.Name, o.Name, ot.holding)
+			return
+		}
+		w.probe("waited-for-conflicting-txn")
+	}
 }
